@@ -1486,7 +1486,10 @@ impl<R: std::io::Read> Decoder<R> {
             return Err(Error::Crc16Mismatch);
         }
 
-        self.current_sample += u64::from(u16::from(header.block_size));
+        // a seek through a hostile SEEKTABLE can leave the position near u64::MAX
+        self.current_sample = self
+            .current_sample
+            .saturating_add(u64::from(u16::from(header.block_size)));
 
         Ok(Some(&self.buf))
     }
